@@ -95,11 +95,7 @@ Theorem codec_reencode_identical :
     in_int64 ver = true -> wf_ty t = true -> wt t v = true ->
     encode_file ver t v = Ok bs -> Z.of_nat (length bs) <= max_uint32 ->
     decode_file ver t bs = Ok v' -> encode_file ver t v' = Ok bs.
-Proof.
-  intros ver t v bs v' Hv W T E L D.
-  destruct (ProofsCodec.codec_file_roundtrip ver t v Hv W T) as [bs' [E' D']].
-  rewrite E in E'. injection E' as <-. rewrite (D' L) in D. injection D as <-. exact E.
-Qed.
+Proof. exact codec_reencode_identical_lemma. Qed.
 
 (* The repaired decoder never builds a sequence longer than the input it has
    left (no allocation or loop driven by a corrupt length). *)
